@@ -94,8 +94,13 @@ def chains(r, end, depth, scope_template=False):
     function body (random statement form) or constant initialiser.  Returns (decl_text, expr, kinds)."""
     decl, e, kinds = ["int idf(int q) { return q; }"], end, []
     for d in range(depth):
-        k = r.choice(["fun", "fun", "init"])
-        if k == "fun":
+        k = r.choice(["fun", "fun", "init", "void-out"])
+        if k == "void-out":
+            # the value travels through a *void* helper with an out-parameter: only the helper's read set carries the dependence
+            decl.append("void vh%d(int &out) { out = %s; }" % (d, e))
+            decl.append("int cf%d() { int t = 0; vh%d(t); return t; }" % (d, d))
+            e = "cf%d()" % d
+        elif k == "fun":
             form = r.choice([f for f in READ_FORMS if READ_FORMS[f]])
             decl.append(reader("cf%d" % d, form, e))
             e = "cf%d()" % d
